@@ -31,11 +31,14 @@ REQUIRED_OBS = {'archives_checked': 30, 'eval:C30:tags-bijection': 30, 'eval:C30
                 'eval:C30:trans-endpoint': 100, 'eval:C30:makefile-prereq': 100, 'perl_runs': 100, 'interstitial_archives': 8,
                 'vacancy_archives': 8, 'endpoints_written_directly': 5}
 CASE_TIMEOUT = 600
+LIMITS = ['3-D crystals only; at most 90 (quick) / 160 (thorough) sites per supercell; 2 archives per calculator',
+          'at most 10 (quick) / 30 (thorough) Makefile rules are executed with perl per archive; nebmake.pl (VTST) is not executed',
+          'supercell.yaml, INCAR contents and file modes are not judged']
 SCRATCH = '/verif/scratch/su'
 
 
 def cases(tier, seed):
-    n = 40 if tier == 'quick' else 400
+    n = 40 if tier == 'quick' else 240
     return [{'seed': seed, 'idx': i, 'hashseed': i % 5, 'tier': tier, 'kind': 'vacancy' if i % 2 == 0 else 'interstitial'}
             for i in range(n)]
 
